@@ -12,7 +12,8 @@ def list_cases(tier, seed):
         for b in bodies:
             for signed in (False, True):
                 out.append((k, b, signed))
-    out += [("objects", "obj_field", False), ("objects", "obj_idx", False), ("enum", "unique", False)]
+    out += [("objects", "obj_field", False), ("objects", "obj_idx", False), ("enum", "unique", False),
+            ("objects_randsz", "obj_idx", False), ("objects_randsz", "obj_field", False)]
     return out
 
 
@@ -120,7 +121,7 @@ def c_lists(c, kind, body, signed):
                 o = C()
                 expect_len = len(o.l)
                 o.set_randstate(RandState.mkFromSeed(sz_lo * 7 + sz_hi))
-                hist = ["rand", "rand", "append", "rand", "clear", "rand", "assign", "rand"]
+                hist = ["rand"] * 8 + ["append", "rand", "clear", "rand", "assign", "rand", "rand"]
                 for step in hist:
                     if step == "rand":
                         try:
@@ -154,6 +155,46 @@ def c_lists(c, kind, body, signed):
                     expect_len = len(o.l)
             except Exception as e:
                 c.check("C04: no exception other than SolveFailure", False, info="%s %s: %s" % (tag, type(e).__name__, e))
+    elif kind == "objects_randsz":
+        @vsc.randobj
+        class RItem(object):
+            def __init__(self):
+                self.v = vsc.rand_bit_t(6)
+                self.w = vsc.rand_bit_t(6)
+
+        @vsc.randobj
+        class RP(object):
+            def __init__(self):
+                self.items = vsc.randsz_list_t(RItem())
+                for _ in range(5):
+                    self.items.append(RItem())
+
+            @vsc.constraint
+            def c(self):
+                self.items.size.inside(vsc.rangelist((1, 5)))
+                if body == "obj_idx":
+                    with vsc.foreach(self.items, idx=True) as i:
+                        self.items[i].v == i + 10
+                else:
+                    with vsc.foreach(self.items) as it:
+                        it.v > 40
+                        it.w < 8
+        try:
+            o = RP()
+            o.set_randstate(RandState.mkFromSeed(5))
+            sizes = []
+            for call in range(16):
+                o.randomize()
+                n = len(o.items)
+                sizes.append(n)
+                xs = [(int(o.items[i].v), int(o.items[i].w)) for i in range(n)]
+                c.check("C04: a random-size object list ends with a length its size constraint admits; len/size/iteration agree",
+                        1 <= n <= 5 and n == o.items.size and len(list(o.items)) == n, info="sizes %r" % (sizes,))
+                ok = all(v == i + 10 for i, (v, w) in enumerate(xs)) if body == "obj_idx" else all(v > 40 and w < 8 for v, w in xs)
+                c.check("C04: the foreach body holds for every element of the final random-size object list, call after call", ok,
+                        info="call %d sizes %r elems %r" % (call, sizes, xs))
+        except Exception as e:
+            c.check("C04: no exception other than SolveFailure", False, info="objects_randsz %s %s: %s" % (body, type(e).__name__, e))
     elif kind == "objects":
         @vsc.randobj
         class Item(object):
